@@ -29,6 +29,7 @@ GLUE_PATTERNS = [
     r"(\w+)\n\b", r"(\w+)\n", r"(\w+)\n\B", r"(?P<x>a+)\n(?m:^)b?", r"(\w)\n(?m:$)", r"b\n\b|(a)", r"(\w+)$", r"\b(\w)(\w*)",
     r"(?m:^)(\w+)\n\b", r"(a)\n\b(?P<y>b)?", r"([a-c]+)\s\b", r"(\S+)\s+\b", r"(?P<word>\w+)\n\n", r"(\w+)\n(?m:^)\B",
     r"x\n\b|(y)\n", r"(-)?\n\b", r"\n\b", r"(\w+)", r"(a)|(b)\n\b", r"(?s:(a.))\b", r"(\w+)\r?\n\b", r"c\b|(a)\n\b",
+    r"(a\n)?", r"\n?", r"(\w*)\n?", r"(?:(a)\n\b)?", r"(a)\n|\b", r"(\w)\n|(?m:^)",
 ]
 GLUE_ALPH = b"ab xyc-1\n\n"
 
